@@ -58,5 +58,16 @@ CHECKS.update({
    technique=MB + "TLC-generated hole-punched pairs driven through unifier.rs, TLC trace validation of every recorded unification against declarative predicates"),
 })
 
+CHECKS.update({
+ "C06": dict(level="model_checking", design_ref="DESIGN.md section 4, C06",
+   text="TLC checks on the specification that weak-head normalisation of a closed ground program gives its value, that conversion coincides with equality of normal forms and that a term is convertible with itself and its reducts (every accepted program up to the size bound); the real normalize_weak_head and evaluate must both give the prescribed literal on every enumerated ground program, and TLC-generated pairs (reflexive, reducts, same-type partners labelled with the normal-form verdict) go through the real unify in both argument orders, each recorded call judged by TLC.",
+   note="Trusted: Whnf / Nf / Conv of spec/GramNorm.tla; normal forms are compared modulo names and parameter annotations. Bounded: programs <= 6 (quick) / 7; pair hosts <= 5 / 6 against a pool of 14 partner terms.",
+   technique=MB + "TLC coherence theorems on the specification + replay of prescribed values into normalizer.rs/evaluator.rs + TLC trace validation of unify on generated pairs"),
+ "C18": dict(level="model_checking", design_ref="DESIGN.md section 4, C18",
+   text="Outer parameters and definition groups of TLC-enumerated and generated closed programs are peeled into real typing/definitions contexts (with the code's offsets); type_check, normalize_weak_head and unify run on the open term under the context and type_check on the closed program; TLC judges every event: same verdict, the open type closed over the context convertible with the closed type, the reported open type is the specification's type of the open term in its own context representation, contexts identical (structure and Rc identity) before and after - also for programs rejected part-way through a nested scope.",
+   note="Trusted: GramTyping contexts ([ty, def, len] entries, deliberately not the code's (term, offset) pairs) and Close/CloseType of Trace_Context. Contexts are hole-free. Hosts <= 6 nodes (quick) plus 300 generated larger programs, 1..4 binders peeled.",
+   technique=MB + "TLC trace validation of context events recorded from type_checker.rs / normalizer.rs / unifier.rs on TLC-enumerated hosts"),
+})
+
 PENDING = "check not built yet in this session (planned in DESIGN.md section 4); will be claimed once its TLA+ model and conformance harness exist"
 NOT_APPLICABLE = {p: PENDING for p in ["C%02d" % i for i in range(1, 20)]}
